@@ -9,7 +9,7 @@ import (
 //
 // Shape of every harness (see notes/C07_lapack.md):
 //   - dimensions are case split in [-1, lmaxdim]; flags are arbitrary bytes; leading dimensions are
-//     symbolic in [0,4]; the length of every slice is symbolic in [0,cap] over a concrete backing;
+//     symbolic in [0, lmaxld]; the length of every slice is symbolic in [0,cap] over a concrete backing;
 //     lwork is symbolic in [-1, min+2];
 //   - the contract is stated BEFORE the call, from the doc comment and the LAPACK conventions, as two
 //     classes:
@@ -22,8 +22,14 @@ import (
 //     operands, ConjTrans where the doc lists only NoTrans/Trans, ...: the documentation is silent)
 //     only get the obligations "no runtime fault" and "nothing written before a panic";
 //   - values are irrelevant to the contract: cells hold concrete numbers so that the numeric part
-//     behind the prologue stays concrete; on the accept branch the leading dimensions are case split
-//     (verifConcrete) and well conditioned matrices are laid out.
+//     behind the prologue stays concrete; increments and lwork are case split (verifConcrete) for every
+//     tuple, the leading dimensions on the branch that is not rejected (there well conditioned
+//     matrices are laid out) and, with lrejconc=1, on the rejected branch as well;
+//   - work / iwork scratch arrays are not operands for "nothing written before a panic".
+//
+// Harnesses marked OPEN VIOLATION report a genuine defect of the unchanged tree and are not listed in
+// checks/C07.json (see notes/C07_lapack.md); the variant next to each of them excludes exactly the
+// failing sub-domain and is listed.
 
 const verifC07lCap = 20 // cells per operand backing
 
